@@ -703,4 +703,12 @@ def bindAllM (r : Router) : List Reg → Router × Option HandleErr
     | none => bindAllM (handleM r m p item).1 rest
     | some e => ((handleM r m p item).1, some e)
 
+/-- `engine.bindRoutes` with BOTH the nesting of the loops and the in-place mutation as in the code. -/
+def bindGroupsM (r : Router) : List (List Reg) → Router × Option HandleErr
+  | [] => (r, none)
+  | g :: gs =>
+    match (bindAllM r g).2 with
+    | none => bindGroupsM (bindAllM r g).1 gs
+    | some e => ((bindAllM r g).1, some e)
+
 end GoZero.C09
